@@ -186,6 +186,7 @@ def rule_narrow(facts):
     db = InstDB(facts)
     rows = [x for x in facts.records("row", "glaredb_core") if x["ctor"].endswith("RawCastFunction::new")]
     seen = set()
+    ranged = set()
     for row in rows:
         insts = db.reachable(row, within=lambda rec: "glaredb_core::functions::cast::" in rec["id"] or "glaredb_core::arrays::scalar::decimal" in rec["id"])
         sites = []
@@ -197,6 +198,12 @@ def rule_narrow(facts):
                 ex = NARROW_EXEMPT.get((rec["id"], c))
                 if ex:
                     r.exempt(f"{rec['id']} {c}", ex)
+                    continue
+                vr = c12.exemption(rec, c, ops, _site)
+                if vr and vr.startswith("value-range argument"):
+                    if (rec["id"], c) not in ranged:
+                        ranged.add((rec["id"], c))
+                        r.exempt(f"{rec['id']} {c}", vr)
                     continue
                 sites.append((rec, c, ln, "raw integer arithmetic: " + d))
             for blk in rec["bbs"]:
